@@ -64,7 +64,13 @@ def parse_scope(s: str) -> dict[str, int]:
     out = {}
     for kv in s.split(";"):
         k, v = kv.split(":")
-        out[k] = int(v)
+        if v.endswith("n"):
+            # a size that is an integer but not a Python `int`: what np.prod / .max() / indexing an integer array hands back
+            import numpy as np
+
+            out[k] = np.int64(int(v[:-1]))
+        else:
+            out[k] = int(v)
     return out
 
 
